@@ -34,7 +34,7 @@ def gen_prepare(ctx, theorems: list[str], covers: str):
             ctx.log.append(f"ctrans: {msg}")
             if not ok:
                 ctx.issue("audit", "obligation:ControlSpec:translator",
-                          f"the control-flow translator could not translate BaseART.step_fit: {msg}")
+                          f"the control-flow translator could not translate the training code of BaseART / SimpleARTMAP: {msg}")
                 return
             p = subprocess.run(["lake", "build", "ArtGenProofs"], cwd=LEAN_DIR, capture_output=True, text=True)
             if p.returncode != 0:
